@@ -74,6 +74,8 @@ type e1Base struct {
 	Start     string  `json:"start,omitempty"`
 	Hor       []proj.Horizon `json:"hor,omitempty"` // explicit profile instead of a catalogue soil
 	InitVol   []float64      `json:"init_vol,omitempty"` // initial water as volumetric fraction per 30 cm band (measurement mode 3) instead of InitW
+	PreCrop   string         `json:"pre_crop,omitempty"` // a crop grown (from day 2) and harvested PreDays later, before Crop is sown two days after that harvest
+	PreDays   int            `json:"pre_days,omitempty"`
 }
 
 func (b e1Base) horizons() []proj.Horizon {
@@ -114,7 +116,10 @@ func e1Project(b e1Base, ndays int) *proj.Project {
 			p.Meas.Water[i] = b.InitVol[min(i, len(b.InitVol)-1)]
 		}
 	}
-	if b.Crop != "" {
+	if b.Crop != "" && b.PreCrop != "" {
+		p.Rotation = append(p.Rotation, proj.CropEntry{Crop: b.PreCrop, Sow: iso(2), Harvest: iso(2 + b.PreDays), Rex: 50},
+			proj.CropEntry{Crop: b.Crop, Sow: iso(4 + b.PreDays), Harvest: iso(ndays + 200), Rex: 0})
+	} else if b.Crop != "" {
 		p.Rotation = append(p.Rotation, proj.CropEntry{Crop: b.Crop, Sow: iso(2), Harvest: iso(ndays + 200), Rex: 0})
 	} else {
 		// a second entry far in the future keeps the field bare
